@@ -2,6 +2,7 @@
 pub mod battery;
 pub mod engine;
 pub mod gen;
+pub mod interp;
 pub mod props;
 pub mod spec;
 pub mod stats;
